@@ -42,9 +42,17 @@ let dec_product (s : Stdlib.String.t) : product =
 
 let dec_cfg (s : Stdlib.String.t) : config =
   match Stdlib.String.split_on_char ',' s with
-  | [f; r; m; k] -> { c_flavor = dec_str f; c_root = dec_str r;
-                      c_max_depth = (if m = "-" then None else Some (nat_of_int (int_of_string m)));
-                      c_keep = bool_of_field k }
+  | f :: r :: m :: k :: rest ->
+      (* optional fifth field: name~version~flavor triples separated by + *)
+      let fl = match rest with
+        | [] | [""] -> []
+        | [x] -> List.map (fun t -> match Stdlib.String.split_on_char '~' t with
+                                    | [n; v; fv] -> ((dec_str n, dec_str v), dec_str fv)
+                                    | _ -> failwith "bad flavor triple") (Stdlib.String.split_on_char '+' x)
+        | _ -> failwith "bad cfg" in
+      { c_flavor = dec_str f; c_root = dec_str r;
+        c_max_depth = (if m = "-" then None else Some (nat_of_int (int_of_string m)));
+        c_keep = bool_of_field k; c_flavors = fl }
   | _ -> failwith "bad cfg"
 
 let dec_decisions (s : Stdlib.String.t) : (ascii list) option list =
